@@ -3,7 +3,7 @@
    and ExtrOcamlZBigInt (positive, N, Z -> Big_int_Z.big_int).  Nothing else. *)
 From Coq Require Import Extraction ExtrOcamlBasic ExtrOcamlZBigInt.
 From Coq Require Import ZArith QArith List.
-From PyqspV Require Import Base.Ops Base.IntervalZ Base.TrigZ Model.LPolyM Model.LAlgM Model.QInst Model.ExprM Model.ConvM Model.Checkers.
+From PyqspV Require Import Base.Ops Base.IntervalZ Base.TrigZ Model.LPolyM Model.LAlgM Model.QInst Model.ExprM Model.ConvM Model.ResponseM Model.Checkers.
 
 Definition peval_q := @peval Q OpsQ.
 Definition geval_q := @geval Q OpsQ.
@@ -21,5 +21,6 @@ Cd "Extract".
 Extraction "model.ml" peval_q geval_q lp_get_q lp_norm2_q lp_degree_q lp_parity_q lp_dmax_q
   la_degree_q la_norm2_q la_unitarity2_q
   check_c01 c01_norm check_ipoly ipoly_norm scaleZ
-  check_c07 c07_norm check_roundtrip.
+  check_c07 c07_norm check_roundtrip
+  check_resp_val resp_dists.
 Cd "..".
